@@ -267,8 +267,16 @@ func printExpr(sb *strings.Builder, n *N, depth int) {
 		printExpr(sb, n.B, depth)
 		sb.WriteString(")")
 	case KPrefix:
+		// unary operators bind tighter than chains: parenthesise non-atomic operands
 		sb.WriteString("(" + n.Str)
-		printExpr(sb, n.A, depth)
+		switch n.A.K {
+		case KSlot, KInt, KVar, KBool, KInfix, KAndOr, KIf, KPrefix:
+			printExpr(sb, n.A, depth)
+		default:
+			sb.WriteString("(")
+			printExpr(sb, n.A, depth)
+			sb.WriteString(")")
+		}
 		sb.WriteString(")")
 	case KIndex:
 		printExpr(sb, n.A, depth)
